@@ -228,6 +228,8 @@ pub fn plan(prop: &str, tier: &str) -> Option<Plan> {
                 s.push(e2(prop, "big", H_LOW, "look1+mut+ch0+shape2", &[], 3, "chk", 40.0));
                 s.push(e1(prop, "u32", H_GOOD, 0, "look1+mut+ch0+shape", &[], 600, 1, 0, "chk", 40.0));
                 s.push(e1(prop, "u32", H_LOW, 0, "look1+mut+ch0+shape", &[], 300, 1, 0, "chk", 40.0));
+                s.push(e1(prop, "u32", H_GOOD, 0, "bulkbig", &[], 40, 1, 0, "chk", 40.0));
+                s.push(as_set(e1(prop, "u32", H_GOOD, 0, "bulkbig", &[], 31, 1, 0, "chk", 40.0)));
                 // the whole resize of a 1024-bucket table (897..1010 elements), one deviation at every point
                 s.push(spot(prop, "u32", H_GOOD, "look1+mut+ch0+shape+iterlite", &["cursor"], 890, 1012, "chk", 40.0));
                 // PathBuf keys looked up / removed as &Path in four spellings of different byte length
@@ -436,6 +438,21 @@ pub fn plan(prop: &str, tier: &str) -> Option<Plan> {
         "C05" => {
             let fl = ["cursor"];
             let a = "look1+mut+ch1+bulk+shape/mut1+ch0+pred+iterlite";
+            // "for any element type": an element whose destructor panics (caught) when the collection drops it,
+            // at every such drop of every call; what is left must be consistent and the cursor must agree
+            let drops = |hk: u8, n: usize, fam: usize, parts: usize, prof: &str, secs: f64| -> Vec<ShardSpec> {
+                (0..parts)
+                    .map(|p| {
+                        let mut x = e1(prop, "tk", hk, 0, "mut+ch1+bulk+shape+iterlite+predlite", &["cursor"], n, 0, 0, prof, secs);
+                        x.engine = "e4".into();
+                        x.extra.insert("fam".into(), fam.to_string());
+                        x.extra.insert("part".into(), p.to_string());
+                        x.extra.insert("parts".into(), parts.to_string());
+                        x.extra.insert("kinds".into(), "drop".into());
+                        x
+                    })
+                    .collect()
+            };
             if q {
                 for &prof in &["asan", "chk"] {
                     s.push(e1(prop, "tk", H_GOOD, 0, a, &fl, if prof == "asan" { 31 } else { 18 }, if prof == "asan" { 1 } else { 2 }, 1, prof, 45.0));
@@ -451,7 +468,7 @@ pub fn plan(prop: &str, tier: &str) -> Option<Plan> {
                         s.push(spot(prop, "tk", H_GOOD, "look1+mut+ch0+shape+iterlite", &fl, 1000, 1012, prof, 45.0));
                         s.push(e1(prop, "tk", H_GOOD, 0, "rmold/look1+mut1+ch0+iterlite+clone", &fl, 72, 2, 0, prof, 45.0));
                         s.push(e1(prop, "tk", H_GOOD, 0, "look1+mut+ch0+shape+iterlite", &fl, 300, 1, 0, prof, 45.0));
-                        s.push(e1(prop, "tk", H_LOW, 0, "rmold/rmold/look1+mut1+ch0+iterlite", &fl, 66, 3, 0, prof, 45.0)); // (the resize that starts at 57 elements is over at 64)
+                        s.push(e1(prop, "tk", H_LOW, 0, "rmold/rmold/look1+mut1+ch0", &fl, 66, 3, 0, prof, 45.0)); // (the resize that starts at 57 elements is over at 64)
                     } else {
                         s.push(e1(prop, "tk", H_GOOD, 0, "rmold", &fl, 72, 1, 0, prof, 45.0));
                     }
@@ -465,7 +482,9 @@ pub fn plan(prop: &str, tier: &str) -> Option<Plan> {
                     s.push(sweep(prop, "u32", H_GOOD, if prof == "asan" { 20_000 } else { 60_000 }, &["cursor", "cheap"], &[("drain_old", "1"), ("audit_every", "0")], prof, 45.0));
                     s.push(sweep(prop, "big", H_GOOD, if prof == "asan" { 300 } else { 500 }, &["cursor", "cheap"], &[("drain_old", "1"), ("audit_every", "0")], prof, 45.0));
                 }
-                bounds = json!({"large elements": "1 KiB, 64-byte-aligned elements (2 KiB map slots) with self-checking padding: d<=1 at N=31..40, map and set", "E1": "Tk: d<=1 at N=64 / d<=2 at N=18 (chk), d<=1 at N=31..48 (asan)", "E2": "fixpoint u=3 (Tk; u=2 for HConst under asan), ZST", "profiles": "asan (optimised, assertions off) and chk (hashbrown debug assertions on)"});
+                s.extend(drops(H_GOOD, 40, 40, 2, "chk", 45.0));
+                s.extend(drops(H_GOOD, 20, 8, 1, "asan", 45.0));
+                bounds = json!({"panicking destructors": "every drop the collection performs in every call of a C01-style alphabet, on <=40 states to N=40 (chk) / 8 states to N=20 (asan), with the post-fault consistency checks, the cursor check and a continuation", "large elements": "1 KiB, 64-byte-aligned elements (2 KiB map slots) with self-checking padding: d<=1 at N=31..40, map and set", "E1": "Tk: d<=1 at N=64 / d<=2 at N=18 (chk), d<=1 at N=31..48 (asan)", "E2": "fixpoint u=3 (Tk; u=2 for HConst under asan), ZST", "profiles": "asan (optimised, assertions off) and chk (hashbrown debug assertions on)"});
             } else {
                 for &prof in &["asan", "chk"] {
                     for &hk in &HS4 {
@@ -498,7 +517,11 @@ pub fn plan(prop: &str, tier: &str) -> Option<Plan> {
                     s.push(sweep(prop, "tk", H_LOW, 3_000, &["cursor", "cheap"], &[("drain_old", "1"), ("audit_every", "0")], prof, 900.0));
                     s.push(sweep(prop, "big", H_GOOD, 10_000, &["cursor", "cheap"], &[("drain_old", "1"), ("audit_every", "0")], prof, 900.0));
                 }
-                bounds = json!({"large elements": "1 KiB, 64-byte-aligned elements: d<=1 at N=130, d<=2 at N=33, E2 u=4", "E1": "Tk: d<=1 at N=130, d<=2 at N=33 (4 hashers; N=64 / N=20 for the clustering hashers under asan)", "E2": "fixpoint u=5/4 (Tk), ZST"});
+                for &hk in &[H_GOOD, H_LOW] {
+                    s.extend(drops(hk, 64, 200, 6, "chk", 900.0));
+                }
+                s.extend(drops(H_GOOD, 40, 48, 6, "asan", 900.0));
+                bounds = json!({"panicking destructors": "every drop the collection performs in every call, <=200 states to N=64 (chk, 2 hashers) / 48 states to N=40 (asan)", "large elements": "1 KiB, 64-byte-aligned elements: d<=1 at N=130, d<=2 at N=33, E2 u=4", "E1": "Tk: d<=1 at N=130, d<=2 at N=33 (4 hashers; N=64 / N=20 for the clustering hashers under asan)", "E2": "fixpoint u=5/4 (Tk), ZST"});
             }
         }
         "C06" => {
@@ -1001,6 +1024,7 @@ pub fn plan(prop: &str, tier: &str) -> Option<Plan> {
                 base.push(e1(prop, "u32", H_GOOD, 0, "ch3", &[], 40, 1, 0, "chk", 45.0));
                 base.push(e1(prop, "u32", H_GOOD, 0, "iter", &[], 40, 1, 0, "chk", 45.0)); // incl. nth / skip at the integer limits
                 base.push(e1(prop, "u32", H_GOOD, 0, "nokey", &[], 40, 1, 0, "chk", 45.0));
+                base.push(e1(prop, "u32", H_GOOD, 0, "bulkbig", &[], 31, 1, 0, "chk", 45.0));
                 base.push(e1(prop, "tk", H_TAG, 0, full, &[], 33, 1, 1, "chk", 45.0));
                 base.push(e1(prop, "u32", H_GOOD, 0, "mut1+ch0+shape/capall+caphuge+fill", &["c10"], 24, 2, 1, "chk", 45.0));
                 base.push(e1(prop, "u32", H_GOOD, 0, "capall+caphuge", &["c10"], 130, 1, 0, "chk", 45.0));
